@@ -6,6 +6,8 @@ from .. import pathlex as PL
 from .. import rx
 from ..model import AnalysisError, attr_chain, call_name, stmts_in
 from ..nullness import Req, returns_maybe
+from ..tokloop import ReaderLoop, group_conv
+from ..tokloop import is_none as tl_is_none
 
 EXPLANATION = (
     "Static rules over the path lexer and the Path builder callbacks (no execution). R09.1 operand discipline: in every "
@@ -100,29 +102,25 @@ def reader_facts(ctx):
     ok, w = PL.prefix_implies(flag["FLAG"], num["FLOAT"])
     ctx.ob("R09.1", "token fact: FLAG match implies FLOAT match", ok, "counterexample %r" % w if not ok else "", 0,
            "monotone-failure reasoning needs every flag token to start a number token")
-    # _more: returns True only on the fall-through after CLOSE and SKIP were excluded (i.e. FLOAT pending); does not advance over FLOAT
+    # _more: answers True exactly when the FLOAT alternative matched at the cursor, and does not consume it
     more = ctx.fn("SVGLexicalParser._more", "R09.1")
-    rets_true = [s for s in stmts_in(more.body) if isinstance(s, ast.Return) and isinstance(s.value, ast.Constant) and s.value.value is True]
-    ctx.need(len(rets_true) == 1, "R09.1", "_more: exactly one `return True` expected")
-    loop = [s for s in more.body if isinstance(s, ast.While)]
-    ctx.need(len(loop) == 1, "R09.1", "_more: loop not found")
-    body = loop[0].body
-    uses_num = any(isinstance(c, ast.Call) and ast.unparse(c.func) == "num_re.match" for c in ast.walk(more))
-    kinds_excluded = set()
-    for s in body:
-        if isinstance(s, ast.If) and isinstance(s.test, ast.Compare) and isinstance(s.test.comparators[0], ast.Constant) \
-                and isinstance(s.test.comparators[0].value, str):
-            if any(isinstance(x, (ast.Return, ast.Continue)) for x in s.body):
-                kinds_excluded.add(s.test.comparators[0].value)
-    ok = uses_num and rets_true[0] is body[-1] and kinds_excluded >= {"CLOSE", "SKIP"}
-    ctx.ob("R09.1", "reader fact: _more() is True only with a number token pending", ok, "excluded kinds %s" % sorted(kinds_excluded), more.lineno,
-           "`_more()` must answer True only when the FLOAT alternative matched at the cursor")
-    # _number: returns float(match.group()) on FLOAT; returns None without consuming a non-skip token otherwise
+    rl = ReaderLoop(ctx.m, more, "R09.1")
+
+    def truthy(o):
+        return o.kind == "return" and isinstance(o.value, ast.Constant) and o.value.value is True
+
+    ok = rl.regex == "num_re" and rl.at_cursor and all(truthy(o) == (k == "FLOAT") for k, o in rl.outcomes.items()) and not rl.outcomes["FLOAT"].advanced \
+        and all(o.kind in ("return", "continue", "exit") for o in rl.outcomes.values())
+    ctx.ob("R09.1", "reader fact: _more() is True only with a number token pending", ok, "; ".join("%s: %r" % kv for kv in rl.outcomes.items())[:220], more.lineno,
+           "`_more()` must answer True only when the FLOAT alternative matched at the cursor (and leave it unread)")
+    # _number: returns float(<match>.group()) on FLOAT after advancing; returns None otherwise
     number = ctx.fn("SVGLexicalParser._number", "R09.1")
-    uses_num = any(isinstance(c, ast.Call) and ast.unparse(c.func) == "num_re.match" for c in ast.walk(number))
-    conv = [s for s in stmts_in(number.body) if isinstance(s, ast.Return) and isinstance(s.value, ast.Call) and call_name(s.value) == "float"]
-    ctx.ob("R09.1", "reader fact: _number() converts the pending FLOAT", uses_num and len(conv) == 1 and ast.unparse(conv[0].value.args[0]) == "match.group()", "", number.lineno,
-           "`_number()` must return the float of the matched token")
+    rn = ReaderLoop(ctx.m, number, "R09.1")
+    of = rn.outcomes.get("FLOAT")
+    ok = rn.regex == "num_re" and rn.at_cursor and of is not None and of.kind == "return" and of.advanced and group_conv(of.value, rn.mvar, ["float"]) \
+        and all((o.kind in ("return", "exit") and tl_is_none(o.value)) or o.kind == "continue" for k, o in rn.outcomes.items() if k != "FLOAT")
+    ctx.ob("R09.1", "reader fact: _number() converts the pending FLOAT", ok, "; ".join("%s: %r" % kv for kv in rn.outcomes.items())[:220], number.lineno,
+           "`_number()` must return the float of the matched token (and None when no number is pending)")
     # _coord: None only if the first number is None; raises ValueError if the second is
     coord = ctx.fn("SVGLexicalParser._coord", "R09.1")
     src = [ast.unparse(s) for s in coord.body]
@@ -152,7 +150,9 @@ def reader_facts(ctx):
     ok, w = rx.included(rx.Lang(num["FLOAT"]), pyfloat)
     ctx.ob("R09.6", "float(FLOAT token)", ok, "counterexample %r" % w if not ok else "", number.lineno, "the number token admits a spelling float() rejects")
     flagf = ctx.fn("SVGLexicalParser._flag", "R09.6")
-    conv = [c for c in ast.walk(flagf) if isinstance(c, ast.Call) and isinstance(c.func, ast.Name) and c.func.id == "int"]
+    rf = ReaderLoop(ctx.m, flagf, "R09.6")
+    of = rf.outcomes.get("FLAG")
+    conv = [1] if (of is not None and of.kind == "return" and (group_conv(of.value, rf.mvar, ["bool", "int"]) or group_conv(of.value, rf.mvar, ["int"]))) else []
     ok, w = rx.included(rx.Lang(flag["FLAG"]), rx.Lang(r"[-+]?[0-9]+"))
     ctx.ob("R09.6", "int(FLAG token)", ok and len(conv) == 1, "counterexample %r" % w if not ok else "", flagf.lineno, "the flag token admits a spelling int() rejects")
     ok, w = rx.equivalent(rx.Lang(flag["FLAG"]), rx.Lang("[01]"))
@@ -312,14 +312,11 @@ def progress(ctx, parse_fn):
             ctx.ob("R09.4", "%s[%s] min width" % (table, name), w >= 1, "min width %d" % w, 0, "a token alternative that can match the empty string stalls the cursor")
     for r in ("_command", "_more", "_number", "_flag"):
         fn = ctx.fn("SVGLexicalParser.%s" % r, "R09.4")
-        loops = [s for s in fn.body if isinstance(s, ast.While)]
-        ctx.need(len(loops) == 1, "R09.4", "%s: loop not found" % r)
-        bad = []
-        _progress_block(loops[0].body, False, bad)
-        ctx.ob("R09.4", "SVGLexicalParser.%s[loop progress]" % r, not bad, "; ".join(bad) or "every continuing path advances self.pos", fn.lineno,
+        rl = ReaderLoop(ctx.m, fn, "R09.4")
+        bad = ["alternative %s: next iteration without advancing (line %d)" % (k, o.line) for k, o in rl.outcomes.items() if o.kind == "continue" and not o.advanced]
+        ctx.ob("R09.4", "SVGLexicalParser.%s[loop progress]" % r, not bad and rl.at_cursor, "; ".join(bad) or "every continuing path advances self.pos", fn.lineno,
                "a loop iteration that neither advances, returns nor breaks never terminates")
-        t = ast.unparse(loops[0].test)
-        ctx.ob("R09.4", "SVGLexicalParser.%s[loop bound]" % r, t == "self.pos < self.limit", t, loops[0].lineno, "reader loops are bounded by the input length")
+        ctx.ob("R09.4", "SVGLexicalParser.%s[loop bound]" % r, rl.bounded, ast.unparse(rl.loop.test), rl.loop.lineno, "reader loops are bounded by the input length")
     # main loop: cmd = self._command(); if cmd is None: return
     fn, cmd_var, branches, dup, end_returns = PL.lexer_branches(ctx, "R09.4")
     ctx.ob("R09.4", "SVGLexicalParser.parse[main loop exit]", end_returns, "", fn.lineno, "the command loop must end when no command is recognised")
